@@ -1,7 +1,8 @@
 SPEC_PART = dict(
     props_file="C13_freq",
     legs=[dict(family="freq", focus="foreign", oracles=["prop_foreign", "prop_roundtrip"], profiles=["debug", "release"],
-               n_quick=30, n_thorough=600)],
+               n_quick=30, n_thorough=600,
+               panic_is_violation=True)],
     trusted=["Frequent Items format = my reading of the Java/C++ layout (DESIGN.md Appendix A): empty iff (flags & 5) != 0, the two top "
              "bits of byte 0 are not part of preamble longs, unused fields are not interpreted; no upstream files available offline"],
     assumptions=["Frequent Items: foreign images hold at most 3/4 * 2^lg_cur counters with lg_cur >= 3 (what Java/C++ writers produce), "
